@@ -345,7 +345,14 @@ class Run:
         before = dict(COUNT)
         deltas, unsure = {}, set()
         was = self.state[key]
+        states0 = dict(self.state)
         self.plan_read(key, deltas, unsure)
+        if CACHED["on"]:
+            # with a result cache the evaluation of the key's query may be served from the cache: what it refers to is then not
+            # demanded and may stay unmaterialised ("on demand") - its state is settled by the next observation
+            for k, s0 in states0.items():
+                if k != key and s0 != "ready" and self.state[k] == "ready":
+                    self.state[k] = "?"
         try:
             with quiet():
                 got = self.w.G.get_bytes(key)
